@@ -28,6 +28,7 @@ chooses the row it infers the column positions from).
 """
 import io
 import os
+import numpy as _numpy
 import re as _re
 import z3
 from fractions import Fraction
@@ -419,6 +420,16 @@ def task_table(rel, ti, window, variant, nother):
             if gotkey != okey:
                 fail('key', 'row %d keyed %r, printed names %r' % (k, gotkey, okey), row=k); return 'key-wrong'
             by_name, by_index = table[key], table[rowidx[k]]
+            # a row index that is a numpy integer (what np.argmax of a column gives) addresses the same row
+            # (once per file and table: base variant, first sign window; the other obligations go on regardless)
+            if variant is None and (not window or window[0] == 0) and k == li:
+                try:
+                    by_np = table[_numpy.int64(rowidx[k])]
+                    if by_np is None or by_np['key'] != allkeys[rowidx[k]] or any(by_np[col] is not by_index[col] and not (by_np[col] == by_index[col]) is True for col in cols):
+                        fail('addressing:numpy-index', 'table[numpy.int64(%d)] is not the row table[%d] returns' % (rowidx[k], rowidx[k]), row=k)
+                except sym.EngineAbort: raise
+                except Exception as ex:
+                    fail('addressing:numpy-index', 'table[numpy.int64(%d)] raised %s: %s' % (rowidx[k], type(ex).__name__, _extext(ex)), row=k)
             if by_name is None or by_name['key'] != key or by_index['key'] != allkeys[rowidx[k]]:
                 fail('addressing:key', 'row %d: table[name] / table[index] do not return the row' % k, row=k); return 'addr-wrong'
             rev = table[key[::-1]] if (kind == 'connection' and nkeys == 2 and key[::-1] not in table._row) else None
@@ -942,11 +953,169 @@ def validate_reader(rep, limit=2500):
         rep.validated(n)
 
 
+# ---------------------------------------------------------------------------
+# FILE-LEVEL TASKS (round 4; built on the C06 machinery): the real reader on a line file of a shipped
+# listing, opened with every enumerated subset of skip_tables (and under another file name); at every
+# result time, reached by a non-negative and by a negative index, every table that is exposed holds
+# the numbers printed for that time.
+
+import itertools as _it
+import types as _types
+
+
+def skip_subsets(tnames, tier):
+    """the skip_tables shapes: every subset of the file's tables (quick, more than 3 tables: subsets of at most 2
+    tables, all but the last table, and all tables)"""
+    subs = []
+    for k in range(len(tnames) + 1):
+        for c in _it.combinations(tnames, k): subs.append(list(c))
+    if tier == 'quick' and len(tnames) > 3:
+        subs = [s for s in subs if len(s) <= 2 or len(s) >= len(tnames) - 1][:14] + [list(tnames)]
+    out = []
+    for s in subs:
+        if s not in out: out.append(s)
+    return out
+
+
+def task_file_skip(rel, tier, alias=None):
+    from harness import C06
+    from harness import c06_common as c6
+    ld = C06._load()
+    P = C06.prepare(rel)
+    raw, sets, fullk, tables, oracle = P['raw'], P['sets'], P['fullk'], P['tables'], P['oracle']
+    n = len(fullk)
+    SF = C06.symbolic_file(P, headers=False)
+    lines, cons, symlines = SF['lines'], SF['cons'], SF['symlines']
+    budget = c6.budget(len(raw), len(sets))
+    ks = C06.starts_for(P, tier)
+    subsets = [[]] if alias else skip_subsets(P['tablenames'], tier)
+    path = P['path'] if not alias else os.path.join(os.path.dirname(P['path']), alias)
+    name = 'file/%s%s' % (rel, '/as=' + alias if alias else '/skip-subsets')
+    failures, samples, distinct = [], [], set()
+    counters = dict(readers=0, positions=0, reached=0, unattributed=0)
+
+    def h(c):
+        for con in cons: c.add(con)
+        proven = set()
+
+        def fail(skip, clause, what, k=None, model=None):
+            key = 'file/%s/%s/%s' % (rel, ('as=' + alias) if alias else ('skip=' + ('+'.join(skip) if skip else 'none')), clause)
+            if model is None:
+                c.stats['obligations'] += 1
+                r, _ = c.solve(z3.BoolVal(True))
+                if r != 'sat':
+                    c.stats['ob_unsat' if r == 'unsat' else 'ob_unknown'] += 1
+                    return
+                c.stats['ob_sat'] += 1
+            failures.append(dict(key=key, what='%s: %s' % (rel, what),
+                                 replay=dict(mode='fileskip', file=os.path.join('tests', 'listing', rel), skip_tables=list(skip), alias=alias,
+                                             index=k, clause=clause, substitutions=SF['subs_for'](model, list(symlines)))))
+
+        for skip in subsets:
+            counters['readers'] += 1
+            f = c6.LineFile(lines)
+            ld.t2listing.io = _types.SimpleNamespace(open=lambda *a, **k_: f)
+            f.arm(2 * budget)
+            try:
+                with C06._Alarm(120):
+                    lst = ld.t2listing.t2listing(path, skip_tables=list(skip))
+            except c6.NonTermination as ex:
+                fail(skip, 'open:terminates', 't2listing(%r, skip_tables=%r) does not return: %s' % (os.path.basename(path), skip, ex)); continue
+            except sym.EngineAbort: raise
+            except Exception as ex:
+                # (TOUGH2-MP output is recognised by its file name OUTPUT_DATA; under another name the reader may refuse it, but must return)
+                if not (alias and P['simulator'] == 'TOUGH2_MP' and not alias.endswith('OUTPUT_DATA')):
+                    fail(skip, 'open:no-exception', 't2listing(%r, skip_tables=%r) raised %s: %s' % (os.path.basename(path), skip, type(ex).__name__, _extext(ex)))
+                else: counters['reached'] += 1
+                continue
+            finally:
+                f.disarm()
+            want = [t for t in P['tablenames'] if t not in skip]
+            if list(lst._tablenames) != want or sorted(lst._table) != sorted(want):
+                fail(skip, 'tables', 'with skip_tables=%r the reader exposes %r, the file prints %r' % (skip, list(lst._tablenames), P['tablenames'])); continue
+            bad = False
+            for k in ks:
+                for kk in (k, k - n):
+                    counters['positions'] += 1
+                    f.arm(budget)
+                    err = None
+                    try:
+                        with C06._Alarm(120): lst.index = kk
+                    except c6.NonTermination as ex: err = ('index:terminates', 'does not return: %s' % ex)
+                    except sym.EngineAbort:
+                        f.disarm(); raise
+                    except Exception as ex: err = ('index:no-exception', 'raised %s: %s' % (type(ex).__name__, _extext(ex)))
+                    f.disarm()
+                    if err:
+                        fail(skip, err[0], 'skip_tables=%r: index = %d %s' % (skip, kk, err[1]), k=kk); bad = True; break
+                    ik = fullk[k]
+                    if not (lst.index == k and float(lst.time) == sets[ik]['time']):
+                        fail(skip, 'index-time', 'skip_tables=%r: after index = %d the reader reports index %r, time %r (file: %d, %r)' % (
+                            skip, kk, lst.index, lst.time, k, sets[ik]['time']), k=kk); bad = True; break
+                    for tn in want:
+                        tab = lst._table[tn]
+                        for r in tables[tn]['rows']:
+                            if oracle.get((tn, r, ik)) is None: continue
+                            row = tab[r]
+                            sig = (tn, r, ik) + tuple(id(row[col]) if isinstance(row[col], SReal) else row[col] for col in tab.column_name)
+                            counters['reached'] += len(tab.column_name)
+                            if sig in proven: continue
+                            hit = C06.printed_check(c, P, SF, tn, r, ik, row, distinct, counters)
+                            if hit is None: proven.add(sig); continue
+                            fail(skip, 'printed-value' if kk >= 0 else 'negative-index:printed-value',
+                                 'skip_tables=%r, index = %d: table %s row %d %s is not the number printed at that time' % (skip, kk, tn, r, hit[0]),
+                                 k=kk, model=hit[1] if hit[1] is not None else None)
+                            bad = True; break
+                        if bad: break
+                    if bad: break
+                if bad: break
+        if not samples:
+            samples.append(dict(task=name, simulator=P['simulator'], tables=P['tablenames'], skip_subsets=subsets[:6], positions=ks))
+        r, _ = c.reachable()
+        if r != 'sat': return 'unreachable'
+        return 'checked' if counters['reached'] or failures else 'nothing-reached'
+
+    res = sym.explore(h, sym.Ctx(timeout_ms=10000), max_paths=3, profile_repo=False)
+    extra = dict(distinct_obligations=len(distinct), simulator=P['simulator'], readers=counters['readers'], positions=counters['positions'],
+                 symbolic_lines=len(symlines), file_tier=True)
+    if not counters['reached'] and not failures: extra['vacuous'] = True
+    seen, keep = {}, []
+    for fl in failures:
+        seen[fl['key']] = seen.get(fl['key'], 0) + 1
+        if seen[fl['key']] <= 2: keep.append(fl)
+    return report.summarize(name, res, keep, samples, extra=extra)
+
+
+FILE_QUICK = ('AUTOUGH2/2/case2.listing', 'AUTOUGH2/3/case3.listing', 'AUTOUGH2/4/case4.listing', 'AUTOUGH2/5/case5.listing',
+              'TOUGH2/2/rfp.listing', 'TOUGH2/8/OUTFILE', 'TOUGH2/11/case11.listing',
+              'TOUGH2-MP/6/OUTPUT_DATA', 'TOUGH2-MP/7/OUTPUT_DATA', 'TOUGH3/2/OUTPUT', 'TOUGHREACT/2/case2.out',
+              'TOUGHplus/1/case1.dat', 'TOUGHplus/4/t3T_out.dat')
+FILE_ALIAS = {'TOUGH2-MP/7/OUTPUT_DATA': 'mp7_copy.listing', 'TOUGH2-MP/6/OUTPUT_DATA': 'perturbed_OUTPUT_DATA', 'TOUGH2/2/rfp.listing': 'OUTPUT_DATA',
+              'TOUGH3/2/OUTPUT': 'copy.out', 'AUTOUGH2/3/case3.listing': 'OUTPUT_DATA'}
+
+
+def file_tasks(tier):
+    files = cc.listing_files(REPO)
+    if tier == 'quick': files = [f for f in files if f.replace(os.sep, '/') in FILE_QUICK]
+    only = [x for x in os.environ.get('C05_FILES', '').split(',') if x]
+    if only: files = [f for f in cc.listing_files(REPO) if any(x in f for x in only)]
+    tasks = []
+    for rel in files:
+        tasks.append((task_file_skip, dict(rel=rel, tier=tier)))
+        al = FILE_ALIAS.get(rel.replace(os.sep, '/'))
+        if al or (tier == 'thorough' and 'TOUGH2-MP' in rel):
+            tasks.append((task_file_skip, dict(rel=rel, tier=tier, alias=al or 'renamed.listing')))
+    return tasks, files
+
+
 def run(tier, seed, rep):
     _load()
     nval, nbad = validate_reader(rep)
     tasks, nfiles, ntables, K, nother, nshape, nchange = build_tasks(tier)
-    results = report.run_tasks(tasks)
+    ftasks, ffiles = file_tasks(tier)
+    if os.environ.get('C05_ONLY') == 'file': tasks = []
+    if os.environ.get('C05_ONLY') == 'kernel': ftasks = []
+    results = report.run_tasks(ftasks + tasks)
     rep.add_results(results)
     for r in results:
         if r.get('error'): continue
